@@ -465,6 +465,11 @@ func cmdCheck(args []string) int {
 			todo = append(todo, f)
 		}
 	}
+	minStart := time.Now()
+	minTotal := 60
+	if e.tier == "thorough" {
+		minTotal = 300
+	}
 	for _, f := range todo {
 		if f.Inconclusive {
 			inconclusive++
@@ -509,13 +514,21 @@ func cmdCheck(args []string) int {
 		}
 		// minimise (bounded), confirm the minimised file in a fresh process
 		final := f.Replay
-		minBudget := "25"
+		// minimisation is bounded per failure and per check
+		mb := 25
 		if e.tier == "thorough" {
-			minBudget = "90"
+			mb = 90
 		}
 		if match != nil {
-			minBudget = "5"
+			mb = 5
 		}
+		if left := minTotal - int(time.Since(minStart).Seconds()); mb > left {
+			mb = left
+		}
+		if mb < 2 {
+			mb = 2
+		}
+		minBudget := strconv.Itoa(mb)
 		mlines, _, merr := e.runWorker("minimise", "-file", f.Replay, "-budget", minBudget)
 		if merr == nil && len(mlines) == 1 && mlines[0].Minimise == "ok" {
 			clines, _, cerr := e.runWorker("replay", "-file", mlines[0].Out)
